@@ -207,6 +207,10 @@ func EncodeCells(cells []Cell) string {
 	if cursor != empty {
 		bldr.WriteString(sgrReset)
 	}
+	if cursor.Hyperlink != "" {
+		// SGR does not end a hyperlink
+		bldr.WriteString(tparm(osc8, "", ""))
+	}
 	return bldr.String()
 }
 
